@@ -48,6 +48,7 @@ def lib():
 
 
 EMPTY_CTX = [False]
+REASSIGN = [False]  # True: built (and used once) with other settings; the public attributes are then set to the judged ones
 FLAGTYPE = [None]  # None: python bool; "int": 1 / 0; "numpy": numpy.bool_ - how return_ctx is handed to the constructors
 SHARED = [None]  # entry 'wrapper' only: the wrapped collator object is also used by a second wrapper with other settings
 PRIOR = [0]  # > 0: the same pipeline object already collated a batch of that size before the judged call
@@ -107,7 +108,25 @@ def run_pipeline(entry, seq, adds, mode, return_ctx, B):
         return_ctx = np.bool_(return_ctx)
     base_mod.default_collate = counting
     try:
-        if entry == "compose":
+        if REASSIGN[0]:
+            # e.g. one collator object used for the train loader (with contexts) and then reconfigured for the eval loader
+            other_mode = "class x" if mode != "class x" else "x"
+            members = [Rec(m, a, log) for m, a in zip(seq, adds)]
+            if entry == "compose":
+                col = KDComposeCollator(members, dataset_mode=other_mode, return_ctx=not return_ctx)
+            elif entry == "single":
+                col = Rec(seq[0], adds[0], log, dataset_mode=other_mode, return_ctx=not return_ctx)
+            else:
+                col = KDSingleCollatorWrapper(members[0], dataset_mode=other_mode, return_ctx=not return_ctx)
+            try:
+                col([sample(other_mode, 30 + i, not return_ctx) for i in range(2)])
+            except Exception:
+                pass
+            col.dataset_mode = mode
+            col.return_ctx = return_ctx
+            del log[:]
+            del calls[:]
+        elif entry == "compose":
             col = KDComposeCollator([Rec(m, a, log) for m, a in zip(seq, adds)], dataset_mode=mode, return_ctx=return_ctx)
         elif entry == "single":
             col = Rec(seq[0], adds[0], log, dataset_mode=mode, return_ctx=return_ctx)
@@ -149,10 +168,10 @@ def run_pipeline(entry, seq, adds, mode, return_ctx, B):
 def check_pipeline(entry, seq, adds, mode, return_ctx, B, p):
     import torch
     case = dict(entry=entry, seq=list(seq), adds=list(adds), mode=mode, return_ctx=return_ctx, B=B, empty_ctx=EMPTY_CTX[0], prior=PRIOR[0],
-                shared=SHARED[0], flagtype=FLAGTYPE[0])
+                shared=SHARED[0], flagtype=FLAGTYPE[0], reassign=REASSIGN[0])
     tag = (f"|entry={entry}|seq={'>'.join(str(m) for m in seq)}|return_ctx={return_ctx}{'|empty_ctx' if EMPTY_CTX[0] else ''}"
            f"{'|after_earlier_call' if PRIOR[0] else ''}{'|collator_shared:' + SHARED[0] if SHARED[0] else ''}"
-           f"{'|flag_type=' + FLAGTYPE[0] if FLAGTYPE[0] else ''}")
+           f"{'|flag_type=' + FLAGTYPE[0] if FLAGTYPE[0] else ''}{'|attributes_reassigned_after_use' if REASSIGN[0] else ''}")
     exp = model(seq)
     p.evaluations += 1
     try:
@@ -360,6 +379,11 @@ def task(args):
                         EMPTY_CTX[0] = False
                         check_pipeline(entry, seq, adds, mode, rc, B, p)
                         if B == 2:
+                            REASSIGN[0] = True
+                            try:
+                                check_pipeline(entry, seq, adds, mode, rc, B, p)
+                            finally:
+                                REASSIGN[0] = False
                             for ft in ("int", "numpy"):
                                 FLAGTYPE[0] = ft
                                 try:
@@ -433,6 +457,7 @@ def replay(case):
         PRIOR[0] = int(case.get("prior") or 0)
         SHARED[0] = case.get("shared")
         FLAGTYPE[0] = case.get("flagtype")
+        REASSIGN[0] = bool(case.get("reassign"))
         try:
             check_pipeline(case["entry"], tuple(case["seq"]), tuple(case["adds"]), case["mode"], case["return_ctx"], case["B"], p)
         finally:
@@ -440,4 +465,5 @@ def replay(case):
             PRIOR[0] = 0
             SHARED[0] = None
             FLAGTYPE[0] = None
+            REASSIGN[0] = False
     return None if not p.violations else "; ".join(m for _, m in list(p.violations.values())[:3])
